@@ -218,6 +218,10 @@ func init() {
 			n, _ = strconv.Atoi(a["relays"])
 		}
 		session := r.sessionHeightFor(a["session"], curBuildHeight)
+		if a["shift"] != "" {
+			d, _ := strconv.ParseInt(a["shift"], 10, 64)
+			session += d
+		}
 		proofs := synthEvidence(app, node, chain, session, n)
 		switch a["dup"] { // evidence with duplicated relays (a servicer replaying one relay to inflate its count)
 		case "all":
